@@ -6,16 +6,14 @@ import (
 	"strings"
 )
 
-// OpTrace records, for one API operation on one feasible path, the lock events and the accesses to
-// heap cells that existed before the operation started (i.e. shared state), each with the lockset held.
+// OpTrace records, for one API operation on one feasible path, the accesses to heap cells of the
+// code under test that existed before the operation started (shared state), each with the set of
+// locks held (name -> held in write mode).
 type Access struct {
-	Cell   string `json:"cell"`
-	Write  bool   `json:"write"`
-	Locks  string `json:"locks"` // sorted "name:W" / "name:R"
-	Where  string `json:"where"`
-	id     interface{}
-	lockIDs map[*Cell]bool
-	lockW   map[*Cell]bool
+	Cell  string          `json:"cell"`
+	Write bool            `json:"write"`
+	Locks map[string]bool `json:"locks"`
+	Where string          `json:"where"`
 }
 
 type OpTrace struct {
@@ -27,53 +25,50 @@ type OpTrace struct {
 	seen   map[string]bool
 }
 
-func (t *OpTrace) lockset(m *Machine) (string, map[*Cell]bool, map[*Cell]bool) {
+func (t *OpTrace) lockset(m *Machine) (map[string]bool, string) {
+	ls := map[string]bool{}
 	var parts []string
-	ids := map[*Cell]bool{}
-	ws := map[*Cell]bool{}
-	for c, ls := range m.locks {
-		if ls.writer {
-			parts = append(parts, ls.name+":W")
-			ids[c] = true
-			ws[c] = true
-		} else if ls.readers > 0 {
-			parts = append(parts, ls.name+":R")
-			ids[c] = true
+	for _, s := range m.locks {
+		if s.writer {
+			ls[s.name] = true
+			parts = append(parts, s.name+":W")
+		} else if s.readers > 0 {
+			ls[s.name] = false
+			parts = append(parts, s.name+":R")
 		}
 	}
 	sort.Strings(parts)
-	return strings.Join(parts, ","), ids, ws
+	return ls, strings.Join(parts, ",")
 }
 
 func (t *OpTrace) access(m *Machine, c *Cell, write bool) {
-	if c.Epoch >= t.epoch || c.Name == "" {
+	if !c.Track || c.Epoch >= t.epoch {
 		return
 	}
-	t.add(m, c, c.Name, write)
+	t.add(m, c.Name, write)
 }
 
 func (t *OpTrace) accessMap(m *Machine, mo *MapObj, write bool) {
-	if mo.Epoch >= t.epoch {
+	if !mo.Track || mo.Epoch >= t.epoch {
 		return
 	}
-	n := mo.Name
-	if n == "" {
-		n = "map"
-	}
-	t.add(m, mo, n, write)
+	t.add(m, mo.Name+"[map]", write)
 }
 
-func (t *OpTrace) add(m *Machine, id interface{}, name string, write bool) {
-	ls, ids, ws := t.lockset(m)
-	key := fmt.Sprintf("%p/%v/%s", id, write, ls)
+func (t *OpTrace) add(m *Machine, name string, write bool) {
+	if strings.HasSuffix(name, "Lock") || strings.HasSuffix(name, "Mutex") {
+		return // the mutex pointer fields themselves are read without synchronisation by design
+	}
+	ls, key := t.lockset(m)
+	k := fmt.Sprintf("%s/%v/%s", name, write, key)
 	if t.seen == nil {
 		t.seen = map[string]bool{}
 	}
-	if t.seen[key] {
+	if t.seen[k] {
 		return
 	}
-	t.seen[key] = true
-	t.Acc = append(t.Acc, Access{Cell: name, Write: write, Locks: ls, Where: m.where(), id: id, lockIDs: ids, lockW: ws})
+	t.seen[k] = true
+	t.Acc = append(t.Acc, Access{Cell: name, Write: write, Locks: ls, Where: m.where()})
 }
 
 func (t *OpTrace) lockEvent(m *Machine, c *Cell, ls *lockState, acquire, write bool) {
@@ -89,3 +84,114 @@ func (t *OpTrace) lockEvent(m *Machine, c *Cell, ls *lockState, acquire, write b
 }
 
 func (t *OpTrace) finish(m *Machine) {}
+
+// ---- race analysis: a schedule query per candidate pair, decided by the solver ----
+
+type raceCand struct {
+	Cell, OpA, OpB, WhereA, WhereB string
+	A, B                           Access
+}
+
+func (r raceCand) label() string {
+	a, b := r.OpA, r.OpB
+	if i := strings.Index(a, "/"); i >= 0 {
+		a = a[i+1:]
+	}
+	if i := strings.Index(b, "/"); i >= 0 {
+		b = b[i+1:]
+	}
+	if b < a {
+		a, b = b, a
+	}
+	return "race:" + r.Cell + " between " + a + " and " + b
+}
+
+// findRaces combines the per-path traces of operations that may run concurrently. For every pair
+// of accesses to the same cell with at least one write, a schedule query asks the solver whether
+// both accesses can happen at the same instant under program order and mutual exclusion of the
+// locks held around them; sat = data race.
+func findRaces(res *Result, z3bin string) []raceCand {
+	seen := map[string]bool{}
+	var out []raceCand
+	var z *Solver
+	for i, ta := range res.Traces {
+		for j, tb := range res.Traces {
+			if j < i {
+				continue
+			}
+			if !mayRunConcurrently(ta.Op, tb.Op) {
+				continue
+			}
+			for _, a := range ta.Acc {
+				for _, b := range tb.Acc {
+					if a.Cell != b.Cell || (!a.Write && !b.Write) {
+						continue
+					}
+					c := raceCand{Cell: a.Cell, OpA: ta.Op, OpB: tb.Op, WhereA: a.Where, WhereB: b.Where, A: a, B: b}
+					key := c.label() + "|" + lockKey(a) + "|" + lockKey(b)
+					if seen[key] {
+						continue
+					}
+					seen[key] = true
+					if z == nil {
+						z = NewSolver(z3bin, 10000)
+					}
+					res.Oblig++
+					if scheduleQuery(z, a, b) {
+						out = append(out, c)
+					} else {
+						res.Disch++
+					}
+					res.Queries++
+				}
+			}
+		}
+	}
+	if z != nil {
+		res.SolverTime += z.Time
+		z.Close()
+	}
+	return out
+}
+
+func lockKey(a Access) string {
+	var p []string
+	for l, w := range a.Locks {
+		p = append(p, fmt.Sprintf("%s:%v", l, w))
+	}
+	sort.Strings(p)
+	return strings.Join(p, ",")
+}
+
+// operations tagged "init:" run before the object is shared (single-threaded by construction)
+func mayRunConcurrently(a, b string) bool {
+	// "<pre-state>/<op>": only operations started from the same pre-state are combined
+	sa, sb := strings.SplitN(a, "/", 2), strings.SplitN(b, "/", 2)
+	return len(sa) == 2 && len(sb) == 2 && sa[0] == sb[0]
+}
+
+// scheduleQuery: integer timestamps; each thread: acq_L < access < rel_L for every lock it holds;
+// locks exclude each other unless both sides hold them in read mode; can both accesses coincide?
+func scheduleQuery(z *Solver, a, b Access) bool {
+	z.Push()
+	defer z.Pop()
+	z.Send("(declare-const ta Int)")
+	z.Send("(declare-const tb Int)")
+	i := 0
+	for l, wa := range a.Locks {
+		acqA, relA := fmt.Sprintf("acqA%d", i), fmt.Sprintf("relA%d", i)
+		z.Send("(declare-const " + acqA + " Int)")
+		z.Send("(declare-const " + relA + " Int)")
+		z.Send("(assert (and (< " + acqA + " ta) (< ta " + relA + ")))")
+		if wb, ok := b.Locks[l]; ok && (wa || wb) {
+			acqB, relB := fmt.Sprintf("acqB%d", i), fmt.Sprintf("relB%d", i)
+			z.Send("(declare-const " + acqB + " Int)")
+			z.Send("(declare-const " + relB + " Int)")
+			z.Send("(assert (and (< " + acqB + " tb) (< tb " + relB + ")))")
+			z.Send("(assert (or (< " + relA + " " + acqB + ") (< " + relB + " " + acqA + ")))")
+		}
+		i++
+	}
+	z.Send("(assert (= ta tb))")
+	return z.Check() == "sat"
+}
